@@ -20,6 +20,7 @@ RULES = {
     "prefix+'/x/y', unrelated, Unicode) x initial root path; both interfaces; non-trivial = two entries whose prefixes are prefixes "
     "of each other are both candidates, or nesting >= 2",
     "mount_grid": "exhaustive: all ordered tables of <= 3 entries over 5 prefixes x 14 paths x 2 root paths (depth 1), both interfaces",
+    "hosts_fixed": "enumerated: four small tables x Host absent / empty / foreign / member / upper-cased member x server address foreign / equal to a member / numeric",
     "hosts": "Hypothesis: host tables of 1..4 patterns from a constructive family (escaped literal, optional www., wildcard "
     "subdomain, optional port, top-level alternation of literals) so that membership is decided by construction, x Host values (members, members with prefix/suffix "
     "junk, ports, upper-case, empty, absent); non-trivial = a near-miss host (junk around a member)",
@@ -185,7 +186,7 @@ def oracle_hosts(case) -> Result:
         if host_language(pat, host if host is not None else ""):
             exp = i
             break
-    ctx = f"patterns {[host_regex(p) for p in table]!r} Host {host!r}"
+    ctx = f"patterns {[host_regex(p) for p in table]!r} Host {host!r} server {case.get('server', 'testserver')!r}"
     for side in ("wsgi", "asgi"):
         seen = []
         M = W if side == "wsgi" else A
@@ -207,7 +208,7 @@ def oracle_hosts(case) -> Result:
 
             entries.append((host_regex(pat), app))
         hosts = M.Hosts(*entries)
-        rq = gw.areq(headers=[["Host", host]] if host is not None else [])
+        rq = gw.areq(headers=[["Host", host]] if host is not None else [], server=[case.get("server", "testserver"), 80])
         run = gw.call_wsgi(hosts, rq) if side == "wsgi" else gw.call_asgi(hosts, rq)
         if run.exc is not None:
             r.fail(f"C09:{side}:hosts-raised:{type(run.exc).__name__}", f"{ctx}: {run.exc!r}")
@@ -222,7 +223,7 @@ def oracle_hosts(case) -> Result:
     return r
 
 
-SUBS = {"mounts": oracle_mounts, "mount_grid": oracle_mounts, "hosts": oracle_hosts}
+SUBS = {"mounts": oracle_mounts, "mount_grid": oracle_mounts, "hosts": oracle_hosts, "hosts_fixed": oracle_hosts}
 
 # ------------------------------------------------------------------------------------------
 
@@ -312,7 +313,22 @@ def host_case(draw):
         host = draw(st.sampled_from(["", "evil.com", "example.org", "com", "example.com:abc", "[::1]", "127.0.0.1:80"]))
     else:
         host = None
-    return {"table": table, "host": host, "near_miss": near}
+    case = {"table": table, "host": host, "near_miss": near}
+    if draw(st.booleans()):
+        # the server's own address is a member of the table: dispatch is on the Host header only, so a
+        # request without (or with another) Host must not reach that entry through the server name
+        case["server"] = member.split(":")[0]
+        case["near_miss"] = case["near_miss"] or host in (None, "")
+    return case
+
+
+def host_fixed_cases():
+    for table in ([["lit", "example.com"]], [["port", "example.com"], ["lit", "other.org"]], [["sub", "example.com"]], [["alt", "a.example|b.example"]]):
+        kind, lit = table[0]
+        member = {"lit": lit, "port": lit, "sub": "a." + lit, "alt": lit.split("|")[0]}[kind]
+        for host in (None, "", "evil.com", member, member.upper()):
+            for server in ("testserver", member, "127.0.0.1"):
+                yield {"table": table, "host": host, "near_miss": host in (None, ""), "server": server}
 
 
 def run(rec, only=None):
@@ -320,5 +336,7 @@ def run(rec, only=None):
     core.run_sharded(rec, grid_shard, 8, min(8, core.ncpu()), ())
     rec.exhaustive["mount_grid"] = True
     core.drive_hypothesis(rec, "mounts", mount_case(), oracle_mounts, 1500 if quick else 30000)
+    core.drive_cases(rec, "hosts_fixed", host_fixed_cases(), oracle_hosts)
+    rec.exhaustive["hosts_fixed"] = True
     core.drive_hypothesis(rec, "hosts", host_case(), oracle_hosts, 1500 if quick else 30000, seed_offset=1)
     rec.exhaustive["mounts"] = rec.exhaustive["hosts"] = False
